@@ -11,6 +11,7 @@ import (
 	"sort"
 	"strconv"
 	"strings"
+	"sync"
 	"unsafe"
 
 	"google.golang.org/protobuf/encoding/protowire"
@@ -25,9 +26,10 @@ import (
 )
 
 type runner struct {
-	prop string
-	tier string
-	r    *prng.Rng
+	prop    string
+	tier    string
+	r       *prng.Rng
+	targets []*Target
 	// the bytes the previous marshal case produced (C05: contents of a "recycled" destination buffer)
 	recycled []byte
 }
@@ -1339,10 +1341,10 @@ func (rn *runner) unmarshalCase(t *Target, name string, enc []byte, applied []st
 	want := dynamicpb.NewMessage(md)
 	var refErr error
 	if p := safeCall(func() { refErr = proto.UnmarshalOptions{Resolver: t.extTypes()}.Unmarshal(enc, want) }); p != "" {
-		// the REFERENCE runtime itself panicked on this input (protobuf-go v1.36.4 does on a map entry whose key field
-		// comes with a foreign wire type: "cannot convert nil to map key"): no reference verdict — the generated code is
-		// still required not to panic, checked below, but nothing is compared
+		// the reference runtime itself gives up on some malformed inputs (protobuf-go 1.36.4, slow path: a map
+		// entry whose key field recurs with another wire type -> "cannot convert nil to map key"): a rejection
 		refErr = fmt.Errorf("reference runtime panicked: %s", p)
+		want = dynamicpb.NewMessage(md)
 		Extra("reference-runtime-panicked", 1)
 	}
 	refPartialErr := refErr
@@ -1353,6 +1355,13 @@ func (rn *runner) unmarshalCase(t *Target, name string, enc []byte, applied []st
 	}
 	m := rn.junkMessage(t, name)
 	buf := append([]byte{}, enc...)
+	if rn.prop == "C10" && !t.Unsafe && !malformed {
+		// the Unmarshal under test is not the first thing this process does: other components (lazyproto, hand-written
+		// decoders in fast mode, generated code with the unsafe option) ran to completion before it
+		if did := rn.priorActivity(rn.targets, t, name, enc); did != "" {
+			desc["before"] = did
+		}
+	}
 	var uerr error
 	var before runtime.MemStats
 	measure := malformed && rn.r.Chance(1, 6)
@@ -1504,7 +1513,10 @@ func (rn *runner) isMergeFinding(t *Target, name string, enc []byte, got *dynami
 		return false
 	}
 	want2 := dynamicpb.NewMessage(md)
-	err2 := proto.UnmarshalOptions{Resolver: t.extTypes()}.Unmarshal(nb, want2)
+	var err2 error
+	if p := safeCall(func() { err2 = proto.UnmarshalOptions{Resolver: t.extTypes()}.Unmarshal(nb, want2) }); p != "" {
+		return false
+	}
 	if uerr != nil {
 		// generated Unmarshal failed: attributable only if the reduced input is rejected by the reference
 		// too, for a missing required field
@@ -2192,10 +2204,13 @@ func (rn *runner) marshalToNoSize(t *Target, name string, m interface{}) (sig, w
 
 func (rn *runner) history(t *Target, name string, steps int) {
 	md := t.desc(name)
-	m, _ := t.build(name, randMessage(rn.r, md, genOpts{requiredAlways: true}))
+	// (proto2 extensions of the type included: a message that starts out with several of them set)
+	m, _ := t.build(name, randMessage(rn.r, md, genOpts{requiredAlways: true, exts: t.extTypes()}))
 	var log []string
 	var scratch []byte
 	var codec csproto.GrpcCodec
+	xs := t.extsOf(name)
+	api := apiFor(t.Runtime)
 	// every Marshal result handed out so far: it belongs to the caller and must not change when the message
 	// (or any other) is marshaled again
 	type heldOut struct {
@@ -2257,11 +2272,25 @@ func (rn *runner) history(t *Target, name string, steps int) {
 				return
 			}
 			if ok && err == nil && !sameModuloMaps(md, dest, want) {
-				Violation("C09", "histories", "stale-state/marshalto-differs-from-fresh-copy", "MarshalTo() into a reused buffer left bytes that differ from marshaling a fresh deep copy of the current contents", desc, hx(want), hx(dest))
+				at, ww, wg := firstDiff(want, dest)
+				desc["first difference at byte"] = at
+				Violation("C09", "histories", "stale-state/marshalto-differs-from-fresh-copy", "MarshalTo() into a reused buffer left bytes that differ from marshaling a fresh deep copy of the current contents", desc, ww, wg)
 				Count("histories", fmt.Sprint(desc), "stale", i, true)
 				return
 			}
 		case 0, 1, 2:
+			if len(xs) > 0 && rn.r.Chance(1, 2) {
+				// proto2 extensions are contents too: set / replace / clear one through the owning runtime's API
+				x := xs[rn.r.Intn(len(xs))]
+				if rn.r.Chance(1, 4) {
+					log = append(log, "clear-extension("+x.Name+")")
+					safeCall(func() { api.clear(m, x.Desc) })
+				} else if v := t.extValue(rn.r, x); v != nil {
+					log = append(log, "set-extension("+x.Name+")")
+					safeCall(func() { api.set(m, x.Desc, v) })
+				}
+				break
+			}
 			log = append(log, "mutate("+mutateStruct(rn.r, reflect.ValueOf(m))+")")
 		case 3:
 			if rn.r.Bool() {
@@ -2275,23 +2304,36 @@ func (rn *runner) history(t *Target, name string, steps int) {
 			log = append(log, "runtime.Size+Marshal")
 			safeCall(func() { t.runtimeSizeMarshal(m) })
 		case 5:
-			other := refBytes(randMessage(rn.r, md, genOpts{requiredAlways: true}))
-			what := "other"
-			if rn.r.Bool() {
-				// … written by a newer schema: carries a field this schema does not define
-				other = append(other, emitRecs([]rec{t.unknownViaRuntime(rn.r, md)})...)
-				what = "other+unknown field"
+			other, what := rn.historyPayload(t, md)
+			route := []string{"Unmarshal", "csproto.Unmarshal", "GrpcCodec.Unmarshal"}[rn.r.Intn(3)]
+			log = append(log, route+"("+what+")")
+			unmarshalVia := func(dst interface{}, p []byte) (err error) {
+				switch route {
+				case "Unmarshal":
+					return dst.(FM).Unmarshal(p)
+				case "csproto.Unmarshal":
+					return csproto.Unmarshal(p, dst)
+				}
+				return codec.Unmarshal(p, dst)
 			}
-			switch rn.r.Intn(3) {
-			case 0:
-				log = append(log, "Unmarshal("+what+")")
-				safeCall(func() { m.(FM).Unmarshal(other) })
-			case 1:
-				log = append(log, "csproto.Unmarshal("+what+")")
-				safeCall(func() { csproto.Unmarshal(other, m) })
-			default:
-				log = append(log, "GrpcCodec.Unmarshal("+what+")")
-				safeCall(func() { codec.Unmarshal(other, m) })
+			var uerr error
+			if p := safeCall(func() { uerr = unmarshalVia(m, clonePayload(other)) }); p != "" {
+				break // a panic of Unmarshal is C08's business
+			}
+			// the contents now are the payload's and nothing else: the same call on a NEW message must leave the same
+			// contents (whatever the message held before — fields, extensions, unknown fields — is gone)
+			fresh := t.Messages[name].New()
+			var ferr error
+			if p := safeCall(func() { ferr = unmarshalVia(fresh, clonePayload(other)) }); p != "" || (uerr == nil) != (ferr == nil) {
+				break
+			}
+			left, lerr := t.readBack(name, m)
+			clean, cerr := t.readBack(name, fresh)
+			if lerr == nil && cerr == nil && !bytes.Equal(left, clean) {
+				desc := map[string]interface{}{"type": t.where(name), "history": strings.Join(log, " ; "), "payload": trunc(hx(other), 300)}
+				Violation("C09", "histories", "stale-state/unmarshal-keeps-earlier-contents", "after Unmarshal the message does not hold the payload's contents: the same call on a new message leaves different contents, i.e. data of the message's earlier life survives (or is lost) and every later Marshal emits it", desc, hx(clean), hx(left))
+				Count("histories", fmt.Sprint(desc), "stale", i, true)
+				return
 			}
 		case 6:
 			if rn.r.Bool() {
@@ -2351,7 +2393,9 @@ func (rn *runner) history(t *Target, name string, steps int) {
 				return
 			}
 			if ok && err == nil && !sameModuloMaps(md, got, want) {
-				Violation("C09", "histories", "stale-state/marshal-differs-from-fresh-copy", "Marshal() returned bytes that differ from marshaling a fresh deep copy of the current contents", desc, hx(want), hx(got))
+				at, ww, wg := firstDiff(want, got)
+				desc["first difference at byte"] = at
+				Violation("C09", "histories", "stale-state/marshal-differs-from-fresh-copy", "Marshal() returned bytes that differ from marshaling a fresh deep copy of the current contents", desc, ww, wg)
 				Count("histories", fmt.Sprint(desc), "stale", i, true)
 				return
 			}
@@ -2361,12 +2405,133 @@ func (rn *runner) history(t *Target, name string, steps int) {
 				}
 				held = append(held, heldOut{live: got, snap: append([]byte{}, got...), how: how})
 			}
+			// nobody touched the message: asking again — sequentially, and from several goroutines at once —
+			// returns the same bytes every time (the order of map entries excepted)
+			if ok && err == nil && rn.r.Chance(1, 2) {
+				if bad, p := rn.marshalAgain(t, md, m, got, rn.r.Chance(1, 3)); bad != nil || p != "" {
+					log = append(log, "Marshal again (message untouched)")
+					desc := map[string]interface{}{"type": t.where(name), "history": strings.Join(log, " ; ")}
+					if p != "" {
+						Violation("C09", "histories", "stale-state/marshal-panic", "a repeated Size()/Marshal() on the untouched message panicked", desc, "no panic", p)
+					} else {
+						at, wa, wb := firstDiff(got, bad)
+						desc["first difference at byte"] = at
+						Violation("C09", "histories", "nondeterministic/marshal-differs-between-calls", "two Marshal calls on a message that nobody modified in between returned different bytes: the output depends on something else than the contents", desc, wa, wb)
+					}
+					Count("histories", fmt.Sprint(desc), "nondeterministic", i, true)
+					return
+				}
+			}
 		}
 	}
 	if !heldIntact(steps) {
 		return
 	}
 	Count("histories", t.where(name)+strings.Join(log, ";"), "ok", steps, true)
+}
+
+// firstDiff: offset of the first differing byte and a window of both byte strings starting there
+func firstDiff(a, b []byte) (int, string, string) {
+	i := 0
+	for i < len(a) && i < len(b) && a[i] == b[i] {
+		i++
+	}
+	win := func(x []byte) string {
+		end := i + 48
+		if end > len(x) {
+			end = len(x)
+		}
+		return fmt.Sprintf("len=%d …[%d:] %s", len(x), i, hx(x[i:end]))
+	}
+	return i, win(a), win(b)
+}
+
+func clonePayload(p []byte) []byte {
+	if p == nil {
+		return nil
+	}
+	return append([]byte{}, p...)
+}
+
+// historyPayload: what a history step unmarshals into the message it has been using — another message of the
+// type (with extensions, half of them with a field this schema does not define), or NOTHING: the nil slice and
+// the empty non-nil slice are the encoding of a message with nothing set.
+func (rn *runner) historyPayload(t *Target, md protoreflect.MessageDescriptor) ([]byte, string) {
+	switch rn.r.Intn(8) {
+	case 0:
+		return nil, "nil"
+	case 1:
+		return []byte{}, "empty"
+	}
+	other := refBytes(randMessage(rn.r, md, genOpts{requiredAlways: true, exts: t.extTypes()}))
+	what := "other"
+	if rn.r.Bool() {
+		// … written by a newer schema: carries a field this schema does not define
+		other = append(other, emitRecs([]rec{t.unknownViaRuntime(rn.r, md)})...)
+		what = "other+unknown field"
+	}
+	return other, what
+}
+
+// marshalAgain: further Size/Marshal calls on a message nobody modifies — through the generated methods and
+// through csproto, three times in a row and (concurrent) from four goroutines at once. It returns the first
+// result that differs from `first` (nil: none) and the first panic.
+func (rn *runner) marshalAgain(t *Target, md protoreflect.MessageDescriptor, m interface{}, first []byte, concurrent bool) (bad []byte, panicked string) {
+	one := func(k int) ([]byte, string) {
+		var b []byte
+		var err error
+		p := safeCall(func() {
+			switch k % 3 {
+			case 0:
+				b, err = m.(FM).Marshal()
+			case 1:
+				csproto.Size(m)
+				b, err = csproto.Marshal(m)
+			default:
+				sz := m.(FM).Size()
+				b = make([]byte, sz)
+				err = m.(FM).MarshalTo(b)
+			}
+		})
+		if p != "" {
+			return nil, p
+		}
+		if err != nil || sameModuloMaps(md, b, first) {
+			return nil, ""
+		}
+		if b == nil {
+			b = []byte{}
+		}
+		return b, ""
+	}
+	if !concurrent {
+		for k := 0; k < 3; k++ {
+			if b, p := one(k); b != nil || p != "" {
+				return b, p
+			}
+		}
+		return nil, ""
+	}
+	const G = 4
+	var wg sync.WaitGroup
+	res := make([][]byte, G)
+	pan := make([]string, G)
+	for g := 0; g < G; g++ {
+		wg.Add(1)
+		go func(g int) {
+			defer wg.Done()
+			for k := 0; k < 3 && res[g] == nil && pan[g] == ""; k++ {
+				res[g], pan[g] = one(g + k)
+			}
+		}(g)
+	}
+	wg.Wait()
+	for g := 0; g < G; g++ {
+		if res[g] != nil || pan[g] != "" {
+			return res[g], pan[g]
+		}
+	}
+	return nil, ""
 }
 
 // helperPointers: csproto.Bool / Int32 / … / String hand out the pointers that optional fields are assigned
@@ -2643,6 +2808,44 @@ func (rn *runner) plainHistory(t *Target, name string) {
 			return
 		}
 	}
+	// Unmarshal into the used message through csproto (the XXX_Unmarshal arm): afterwards it holds the payload's
+	// contents — what the same call leaves in a new message — and nothing of its earlier life
+	payload, what := rn.historyPayload(t, md)
+	route := "csproto.Unmarshal"
+	if rn.r.Bool() {
+		route = "GrpcCodec.Unmarshal"
+	}
+	log = append(log, route+"("+what+")")
+	call := func(dst interface{}) error {
+		if route == "csproto.Unmarshal" {
+			return csproto.Unmarshal(clonePayload(payload), dst)
+		}
+		return csproto.GrpcCodec{}.Unmarshal(clonePayload(payload), dst)
+	}
+	fresh := t.Messages[name].Twin()
+	var e1, e2 error
+	if p := safeCall(func() { e1 = call(tw); e2 = call(fresh) }); p != "" || (e1 == nil) != (e2 == nil) {
+		return
+	}
+	render := func(x interface{}) ([]byte, error) {
+		x.(xxxMarshaler).XXX_Size()
+		b, err := x.(xxxMarshaler).XXX_Marshal(nil, true)
+		if err != nil && strings.Contains(err.Error(), "required field") {
+			err = nil
+		}
+		return b, err
+	}
+	var left, clean []byte
+	var lerr, cerr error
+	if p := safeCall(func() { left, lerr = render(tw); clean, cerr = render(fresh) }); p != "" || lerr != nil || cerr != nil {
+		return
+	}
+	if !bytes.Equal(left, clean) {
+		desc := map[string]interface{}{"type": t.where(name) + " (plain twin)", "history": strings.Join(log, " ; "), "payload": trunc(hx(payload), 300)}
+		Violation("C09", "histories", "stale-state/unmarshal-keeps-earlier-contents", "after Unmarshal the message does not hold the payload's contents: the same call on a new message leaves different contents", desc, hx(clean), hx(left))
+		return
+	}
+	check()
 }
 
 // Main is called by the generated program: gencheck <property> <tier> <seed>.
@@ -2672,20 +2875,31 @@ func Main(targets []*Target) {
 			targets = append(targets, t)
 		}
 	}
-	rn := &runner{prop: prop, tier: tier, r: prng.New(seed)}
+	rn := &runner{prop: prop, tier: tier, r: prng.New(seed), targets: targets}
 	n := 12
 	if tier == "thorough" {
 		n = 400
 	}
+	firstUseRounds := 600
+	if tier == "thorough" {
+		firstUseRounds = 20000
+	}
 	switch prop {
-	case "C04", "C05":
+	case "C04":
+		// (first: round 0 of every type is its first use in this process; a generator of its own, so that the
+		// sequential stream below is the same as without it)
+		(&runner{prop: prop, tier: tier, r: prng.New(seed ^ 0x66697273), targets: targets}).firstUse(targets, firstUseRounds)
+		rn.runMarshal(targets, n)
+	case "C05":
 		rn.runMarshal(targets, n)
 	case "C06", "C07", "C10":
 		rn.runUnmarshal(targets, n)
 	case "C08":
 		rn.runUnmarshal(targets, 2*n)
 	case "C09":
+		(&runner{prop: prop, tier: tier, r: prng.New(seed ^ 0x66697273), targets: targets}).firstUse(targets, firstUseRounds/3)
 		rn.runHistories(targets, n)
+		rn.runtimeOnlyHistory(4 * n)
 	case "C17":
 		rn.runMarshal(targets, n)
 		rn.runUnmarshal(targets, n)
